@@ -18,10 +18,12 @@ LEVEL_TEXT = 'All group operations on all tensors of all enumerated nodes; symme
 LEVEL_NOTE = 'Invariance is tested with the Cartesian rotations stored in crys.G (their correctness is C18).'
 
 TOL = 1e-9
-VM_QUICK = [('FCC', 0, 1), ('HCP', 0, 1), ('HONEY', 0, 1), ('OMEGA', 0, 1), ('RECTM', 0, 1), ('TET', 1, 1), ('SQUARE', 0, 2), ('OBLIQUE', 1, 1), ('MONO', 2, 1)]
+VM_QUICK = [('FCC', 0, 1), ('HCP', 0, 1), ('HONEY', 0, 1), ('OMEGA', 0, 1), ('RECTM', 0, 1), ('TET', 1, 1), ('SQUARE', 0, 2), ('OBLIQUE', 1, 1), ('MONO', 2, 1),
+            ('P1_3', 0, 1)]      # P1_3: origin states, three inequivalent sites, no symmetry at all
 VM_THOROUGH = VM_QUICK + [('BCC', 0, 1), ('SC', 0, 1), ('DIAMOND', 0, 1), ('B2', 0, 1), ('ROMEGA', 0, 1), ('FCC', 0, 2), ('TRIA', 0, 1), ('NBO', 0, 1),
                           ('ORTH', 2, 1), ('TRIC', 2, 1), ('P1', 1, 1), ('RHOM', 1, 1), ('CRECT', 1, 1), ('L12', 0, 1), ('WURTZ2', 0, 1)]
 XL = [('ene', 20.0), ('ene', -20.0)]
+SITE_LETTERS_ONLY = ('P1_3',)
 CHUNK = 30
 
 
@@ -35,9 +37,14 @@ def cases(tier):
     letters = [0, 2, 3, 5, 6] if tier == 'quick' else list(range(7))
     for (name, icut, N) in (VM_QUICK if tier == 'quick' else VM_THOROUGH):
         ent = vm.calculator(name, icut, N)
-        nco = len(vm.coordinates(ent))
-        devs = [()] + [((c, l),) for c in range(nco) for l in letters]
-        nodes = [(b, d) for b in ('T', 'G1', 'G2', 'X') for d in devs]
+        coords = vm.coordinates(ent)
+        nco = len(coords)
+        # crystals without any symmetry have hundreds of transition-state classes: deviations on the site / interaction
+        # coordinates only (the transition-state letters are covered by every other crystal)
+        dev_coords = [c for c in range(nco) if coords[c][0] in ('V', 'S')] if name in SITE_LETTERS_ONLY else range(nco)
+        devs = [()] + [((c, l),) for c in dev_coords for l in letters if not (name in SITE_LETTERS_ONLY and l >= 5)]
+        # (no extreme letters and no X base on the no-symmetry crystal: the extreme regime is explored on every other crystal)
+        nodes = [(b, d) for b in (('T', 'G1', 'G2') if name in SITE_LETTERS_ONLY else ('T', 'G1', 'G2', 'X')) for d in devs]
         for c in range(0, len(nodes), CHUNK):
             out.append({'key': 'vm/{}/{}/N{}/chunk{}'.format(name, icut, N, c // CHUNK), 'kind': 'vm', 'crystal': name, 'icut': icut, 'N': N,
                         'nodes': [[b, [list(x) for x in d]] for b, d in nodes[c:c + CHUNK]], 'cost': N})
